@@ -153,6 +153,7 @@ fn distinct_ns(m: &MMappings) -> bool { let s: HashSet<&S> = m.ns.iter().collect
 fn show_row(r: &NamesRow) -> String { r.iter().map(|o| match o { Some(s) => show(s), None => "<none>".into() }).collect::<Vec<_>>().join("\t") }
 fn show_mappings(m: &MMappings) -> String {
 	let mut t = format!("tiny\t2\t0\t{}\n", m.ns.iter().map(|s| show(s)).collect::<Vec<_>>().join("\t"));
+	if let Some(d) = &m.doc { t += &format!("(comment of the mapping set)\t{:?}\n", show(d)); }
 	for c in &m.classes {
 		t += &format!("c\t{}\n", show_row(&c.names));
 		if let Some(d) = &c.doc { t += &format!("\tc\t{:?}\n", show(d)); }
@@ -233,7 +234,12 @@ fn through(r: &mut Report, m: &MMappings, names: &[S], stream: &str) -> anyhow::
 							vio(r, "reordering to the same namespace order changed the mappings".into(), m, names, &show_outcome(&out));
 						}
 						// inverse law: back to the original order
-						let (back, desync2) = impl_reorder(m2, &m.ns)?;
+						// the implementation's own output is the input here: if it cannot even be rebuilt as a mapping tree
+						// (an entry without a first name, a duplicate key) that is a finding about the output, not a harness error
+						let (back, desync2) = match impl_reorder(m2, &m.ns) {
+							Ok(x) => x,
+							Err(e) => { vio(r, format!("the result of reorder is not a well-formed mapping set (it cannot be reordered back): {e}"), m, names, &show_outcome(&out)); return Ok(out); }
+						};
 						for d in &desync2 { vio(r, format!("result of the inverse reorder is mis-keyed: {d}"), m2, &m.ns, ""); }
 						let back_same = matches!(&back, Ok(Some(b)) if b.equiv(m));
 						let hyp = no_collision(m, table[0]) && clean(m);
@@ -283,6 +289,11 @@ fn gen_full(rng: &mut Rng, n: usize, small: bool) -> MMappings {
 	cfg.absent_12 = 0;
 	if small { cfg.max_classes = 4; cfg.max_members = 3; cfg.max_params = 2; }
 	let mut m = gen_mappings(rng, &cfg);
+	// the comment of the mapping set itself ("comments … untouched" at the top level): the shared generator never sets it
+	if rng.chance(1, 3) {
+		const TOP: [&str; 6] = ["the mappings' own comment", "two\nlines", "  leading", "# hash", "\u{fc}n\u{ef}\u{1F600}", "x"];
+		m.doc = Some(cps_str(*rng.pick(&TOP[..])));
+	}
 	let srcs: Vec<S> = m.classes.iter().map(|c| c.names[0].clone().unwrap()).collect();
 	// unique class names per column
 	for col in 1..n {
@@ -370,18 +381,26 @@ pub fn run(ctx: &Ctx) -> anyhow::Result<Report> {
 	let mut r = Report::new("C08", "C08.Run");
 	let mut rng = Rng::new(ctx.seed);
 	let t = ctx.thorough;
-	r.rule = "mapping sets with n = 2, 3, 4 namespaces from mapmodel::gen_mappings (classes with $-nesting and packages, fields, methods, parameters with holes, comments, unicode) post-processed so that every row is full and names are unique per level and column ('full'), or with random holes ('partial'); descriptors mention mapped classes, unmapped classes and arrays of both; for each set EVERY permutation of its namespaces is reordered (the Coq model enumerates the n! permutations itself, CPerms). Further streams: an entry without a name in the future first namespace (must fail), duplicate names in the future first namespace (duplicate key => Err), an unmapped descriptor class equal to a target name (collision: hypothesis of the inverse law violated), a class name containing ';', malformed descriptors, non-permutation / unknown / duplicate namespace arrays, remapper_a(from,to).map_field_desc on valid and malformed descriptors, the repository's fixture. Oracle on the implementation: independent reference reorder (equal up to order), identity law, inverse law on the implementation's own output (when no_collision and clean hold), failure law, key/info sync of the result, entry count. One evaluation = one (mapping set, namespace array); non-trivial = at least one class and the result is Ok; distinct by the printed input.".into();
+	r.rule = "mapping sets with n = 2, 3, 4 namespaces from mapmodel::gen_mappings (classes with $-nesting and packages, fields, methods, parameters with holes, comments at every level including the mapping set's own comment (probability 1/3, set here: the shared generator leaves it None), unicode) post-processed so that every row is full and names are unique per level and column ('full'), or with random holes ('partial'); descriptors mention mapped classes, unmapped classes and arrays of both; for each set EVERY permutation of its namespaces is reordered (the Coq model enumerates the n! permutations itself, CPerms). Further streams: an entry without a name in the future first namespace (must fail), duplicate names in the future first namespace (duplicate key => Err), an unmapped descriptor class equal to a target name (collision: hypothesis of the inverse law violated), a class name containing ';', malformed descriptors, non-permutation / unknown / duplicate namespace arrays, remapper_a(from,to).map_field_desc on valid and malformed descriptors, the repository's fixture. Oracle on the implementation: independent reference reorder (equal up to order), identity law, inverse law on the implementation's own output (when no_collision and clean hold), failure law, key/info sync of the result, entry count. One evaluation = one (mapping set, namespace array); non-trivial = at least one class and the result is Ok; distinct by the printed input.".into();
 
-	// 0. the repository's fixture
+	// 0. the repository's fixture (VERIF_REPO, default /repo); a missing or renamed fixture is a note, not a verdict
 	{
-		let input = std::fs::read("/repo/quill/tests/reorder_input.tiny")?;
-		let expected = std::fs::read("/repo/quill/tests/reorder_output.tiny")?;
-		let mut d = vec![];
-		let m = from_quill(&quill::tiny_v2::read::<2, NsAny>(&input[..])?, &mut d);
-		let e = from_quill(&quill::tiny_v2::read::<2, NsAny>(&expected[..])?, &mut d);
-		all_perms(&mut r, &m, "fixture")?;
-		let out = one_out(&mut r, &m, &e.ns, "fixture")?;
-		if !matches!(&out, Ok(Some(x)) if x.equiv(&e)) { vio(&mut r, "the repository's fixture no longer reorders to reorder_output.tiny".into(), &m, &e.ns, &show_outcome(&out)); }
+		let repo = std::env::var("VERIF_REPO").unwrap_or_else(|_| "/repo".into());
+		let (pi, po) = (format!("{repo}/quill/tests/reorder_input.tiny"), format!("{repo}/quill/tests/reorder_output.tiny"));
+		let parsed = (|| -> anyhow::Result<(MMappings, MMappings)> {
+			let (input, expected) = (std::fs::read(&pi)?, std::fs::read(&po)?);
+			let mut d = vec![];
+			Ok((from_quill(&quill::tiny_v2::read::<2, NsAny>(&input[..])?, &mut d), from_quill(&quill::tiny_v2::read::<2, NsAny>(&expected[..])?, &mut d)))
+		})();
+		match parsed {
+			Ok((m, e)) => {
+				r.count("fixture:used");
+				all_perms(&mut r, &m, "fixture")?;
+				let out = one_out(&mut r, &m, &e.ns, "fixture")?;
+				if !matches!(&out, Ok(Some(x)) if x.equiv(&e)) { vio(&mut r, "the repository's fixture no longer reorders to reorder_output.tiny".into(), &m, &e.ns, &show_outcome(&out)); }
+			}
+			Err(e) => { r.count("fixture:not available"); r.notes.push(format!("the repository's fixture {pi} / {po} was not used (missing, renamed or unreadable: {e}); the generated streams do not depend on it")); }
+		}
 	}
 
 	// 1. every permutation of generated sets
@@ -389,6 +408,7 @@ pub fn run(ctx: &Ctx) -> anyhow::Result<Report> {
 		for i in 0..(full + partial) {
 			let mut m = gen_full(&mut rng, n, n == 4);
 			let stream = if i < full { format!("perms{n}-full") } else { punch(&mut rng, &mut m, 10); format!("perms{n}-partial") };
+			r.count(if m.doc.is_some() { "top-level comment:Some" } else { "top-level comment:None" });
 			r.count(&format!("size:{}", match m.size() { 0 => "0", 1..=5 => "1-5", 6..=15 => "6-15", _ => "16+" }));
 			all_perms(&mut r, &m, &stream)?;
 		}
